@@ -106,14 +106,52 @@ ENGINES['secrets_hw'] = dict(ENGINES['secrets'],
 ENGINES['secrets_o2'] = dict(ENGINES['secrets'], cflags=['-O2'], nosan=True, props=['C20'],
     real=ENGINES['secrets']['real'] + ' (all compiled -O2 without sanitizers, so dead-store elimination applies)')
 
+# ---- alternative build configurations of the same harnesses (a property holds for the library as it is built, and
+# the repository has compile-time switches behind which code sits that the default build never compiles).  Each
+# variant gets `scale` times the runs of its base engine.
+def variant(base, name, scale=0.25, **kw):
+    e = dict(ENGINES[base], base=base, scale=scale)
+    extra_repo = kw.pop('extra_repo', [])
+    extra_cflags = kw.pop('extra_cflags', [])
+    note = kw.pop('note', '')
+    e.update(kw)
+    e['repo'] = ENGINES[base]['repo'] + extra_repo
+    e['cflags'] = ENGINES[base].get('cflags', []) + extra_cflags
+    e['real'] = ENGINES[base]['real'] + ' ' + note
+    ENGINES[name] = e
+
+
+# SHA-256 through the SSE2 and SHA-NI implementations (sha256.c selects them at run time after a self-test)
+variant('secrets', 'secrets_sse2', extra_repo=['alg/sha256_sse2.c', 'cpusupport/cpusupport_x86_sse2.c'],
+        extra_cflags=['-msse2'], cpuconfig='sim/sse2_config.h', props=['C19', 'C20'],
+        note='[build: CPUSUPPORT_X86_SSE2, sha256_sse2.c]')
+variant('secrets', 'secrets_shani',
+        extra_repo=['alg/sha256_shani.c', 'cpusupport/cpusupport_x86_shani.c', 'cpusupport/cpusupport_x86_ssse3.c'],
+        extra_cflags=['-msse2', '-mssse3', '-msha'], cpuconfig='sim/shani_config.h', props=['C19', 'C20'],
+        note='[build: CPUSUPPORT_X86_SHANI+SSSE3, sha256_shani.c]')
+variant('entropy', 'entropy_sse2', extra_repo=['alg/sha256_sse2.c', 'cpusupport/cpusupport_x86_sse2.c'],
+        extra_cflags=['-msse2'], cpuconfig='sim/sse2_config.h', props=['C11'],
+        note='[build: CPUSUPPORT_X86_SSE2, sha256_sse2.c]')
+# the generator as x86 builds get it by default: RDRAND output mixed in after every (re)seed.  The instruction and its
+# CPUID bit are stubs (seeded stream, scripted "no data"); the reference model does the same extra state update.
+variant('entropy', 'entropy_rdrand', scale=0.5, extra_cflags=['-DSIM_RDRAND'], cpuconfig='sim/rdrand_config.h',
+        props=['C11'], note='[build: CPUSUPPORT_X86_RDRAND; RDRAND instruction and CPUID bit stubbed]')
+# assertions compiled out (-DNDEBUG): a side effect hidden inside assert() disappears, an argument check no longer aborts
+variant('secrets', 'secrets_nd', extra_cflags=['-DNDEBUG'], props=['C19', 'C20'], note='[build: -DNDEBUG]')
+variant('entropy', 'entropy_nd', extra_cflags=['-DNDEBUG'], props=['C10', 'C11', 'C20'], note='[build: -DNDEBUG]')
+# the documented workaround for platforms without MSG_NOSIGNAL (SIGPIPE ignored around send)
+variant('netio', 'netio_pf', extra_cflags=['-DPOSIXFAIL_MSG_NOSIGNAL'], props=['C06', 'C07'],
+        note='[build: -DPOSIXFAIL_MSG_NOSIGNAL]')
+
 # property -> engines whose runs decide it
 PROP_ENGINES = {
     'C04': ['evloop'], 'C05': ['evloop'],
-    'C06': ['netio'], 'C07': ['netio'],
+    'C06': ['netio', 'netio_pf'], 'C07': ['netio', 'netio_pf'],
     'C08': ['http'], 'C09': ['http'],
-    'C10': ['entropy'], 'C11': ['entropy'],
+    'C10': ['entropy', 'entropy_nd'], 'C11': ['entropy', 'entropy_nd', 'entropy_sse2', 'entropy_rdrand'],
     'C12': ['containers'], 'C13': ['containers'],
     'C14': ['containers', 'evloop', 'netio', 'http'],
-    'C19': ['secrets'],
-    'C20': ['secrets', 'secrets_hw', 'secrets_o2', 'entropy'],
+    'C19': ['secrets', 'secrets_sse2', 'secrets_shani', 'secrets_nd'],
+    'C20': ['secrets', 'secrets_hw', 'secrets_o2', 'secrets_sse2', 'secrets_shani', 'secrets_nd', 'entropy',
+            'entropy_nd'],
 }
